@@ -338,12 +338,12 @@ func compute(tier string, seed int64, dir string) *Shared {
 				if v.Tag == "" {
 					run.Outcomes[name] = ModelObs{Panic: true}
 				}
-				if name == "truncateCmp" && v.Tag == "skipArchDependent=false" {
-					run.Outcomes["truncateCmp/noskip"] = ModelObs{Panic: true}
+				if mv := ModelledVariant(name, v.Tag); mv != "" {
+					run.Outcomes[mv] = ModelObs{Panic: true}
 				}
 				continue
 			}
-			if v.Tag == "" || (name == "truncateCmp" && v.Tag == "skipArchDependent=false") {
+			if v.Tag == "" || ModelledVariant(name, v.Tag) != "" {
 				mo := ModelObs{Offs: []int{}}
 				for _, d := range out.Diags {
 					off := -1
@@ -355,7 +355,7 @@ func compute(tier string, seed int64, dir string) *Shared {
 				if v.Tag == "" {
 					run.Outcomes[name] = mo
 				} else {
-					run.Outcomes["truncateCmp/noskip"] = mo
+					run.Outcomes[ModelledVariant(name, v.Tag)] = mo
 				}
 			}
 			for _, d := range out.Diags {
